@@ -152,10 +152,36 @@ static void op_dyn(int argc, char** a)
 	free(in); free(l); if (packed) free(packed);
 }
 
+/* iu <k> <w> <b0> <b1>: the decompressors' inline unpacker of w residual bits at bit k of byte b0 (the snippet of szd_float.c and 113 other
+ * sites, with the library's own mask helpers) */
+static void op_iu(int argc, char** a)
+{
+	int kMod8 = (int)hx(a[0]), resiBitsLength = (int)hx(a[1]); unsigned char mid[2] = { (unsigned char)hx(a[2]), (unsigned char)hx(a[3]) };
+	int p = 0, resiBits = 0;
+	int rightMovSteps = getRightMovingSteps(kMod8, resiBitsLength);
+	if (rightMovSteps > 0) {
+		int code = getRightMovingCode(kMod8, resiBitsLength);
+		resiBits = (mid[p] & code) >> rightMovSteps;
+	} else if (rightMovSteps < 0) {
+		int code1 = getLeftMovingCode(kMod8);
+		int code2 = getRightMovingCode(kMod8, resiBitsLength);
+		int leftMovSteps = -rightMovSteps;
+		rightMovSteps = 8 - leftMovSteps;
+		resiBits = (mid[p] & code1) << leftMovSteps;
+		p++;
+		resiBits = resiBits | ((mid[p] & code2) >> rightMovSteps);
+	} else {
+		int code = getRightMovingCode(kMod8, resiBitsLength);
+		resiBits = (mid[p] & code);
+		p++;
+	}
+	printf("v=%x adv=%d\n", resiBits, p);
+}
+
 /* ---------- dispatch ---------- */
 
 static struct op base_ops[] = {
-	{"be", op_be}, {"rd", op_rd}, {"fp", op_fp}, {"size", op_size}, {"arr", op_arr}, {"pack", op_pack}, {"dyn", op_dyn},
+	{"be", op_be}, {"rd", op_rd}, {"fp", op_fp}, {"size", op_size}, {"arr", op_arr}, {"pack", op_pack}, {"dyn", op_dyn}, {"iu", op_iu},
 	{NULL, NULL}
 };
 extern struct op more_ops[];
